@@ -177,7 +177,8 @@ def run(out, tier, rng, work):
     out.rule = ('three real stacks (either layer); histories of 1..40 transfers mixing sizes, directions, peers and outcomes (clean, k-th frame '
                 'lost, peer abort while waiting for CTS, peer silent, nobody answering), spaced 0.2..4 s; then the full advertised concurrency '
                 'is started (J1939-22: 8 RTS/CTS + 4 BAM at once; J1939-21: one transfer per pair) and must be accepted and delivered intact; '
-                'every handler log replayed on the Coq models; non-trivial = a fault occurred or at least 3 history transfers')
+                'every handler log replayed on the Coq models; non-trivial = a fault occurred or at least 3 history transfers'
+                ' Outcomes include a peer that answers with hold CTS frames and then falls silent.')
     out.assumptions = ['A1-A6 of DESIGN.md section 3', 'the inductive theorem over whole job passes is not proved: each step kind (allocation, release, inbound) is']
     sprop.run_stateful(out, 'C10', tier, rng, work, FILES, gen, oracle, 80, 1500, nontrivial, runner=runner,
                        sample=lambda sc, res: dict(dll=sc.get('dll'), history=[(e['a'][1], e['a'][2], e.get('outcome')) for e in sc['script'] if e.get('hist')][:6],
